@@ -355,7 +355,7 @@ class _Ttl:
             return self.iri(t[1], predicate)
         if t[0] == "b":
             if position == "o" and t[1] in getattr(self, "lists_now", {}):
-                return "( " + " ".join(self.term(m) for m in self.lists_now[t[1]]) + " )" if self.lists_now[t[1]] else "()"
+                return "( " + " ".join(self.term(m, position="o" if m[0] == "b" and m[1] in self.lists_now else None) for m in self.lists_now[t[1]]) + " )" if self.lists_now[t[1]] else "()"
             if position == "o" and t[1] in getattr(self, "nest_now", {}):
                 # a blank node property list: the node's own statements inside the brackets
                 inner = " ; ".join(self.term(p2, True) + " " + self.term(o2, position="o") for p2, o2 in self.nest_now[t[1]])
@@ -387,9 +387,10 @@ class _Ttl:
         self.lists_now = {}
         if getattr(self, "all_quads", None) is not None and not self.n3:
             found = find_lists(triples, self.all_quads)
-            for head, (members, cells) in found.items():
+            # (inner lists first: a list may have members that are lists written in place themselves)
+            for head, (members, cells) in sorted(found.items(), key=lambda kv: any(m[0] == "b" for m in kv[1][0])):
                 here = any(t[2] == ["b", head] for t in triples)  # (the statement that has the list as its object is in this block)
-                if here and st.random() < 0.75 and not any(m[0] == "b" for m in members):
+                if here and st.random() < 0.75 and not any(m[0] == "b" and m[1] not in self.lists_now for m in members):
                     self.lists_now[head] = members
                     gone = {c[1] for c in cells}
                     triples = [t for t in triples if not (t[0][0] == "b" and t[0][1] in gone)]
@@ -956,11 +957,16 @@ def write_jsonld(quads, style=None, ext_base=None):
         by = {}
         lists = {}
         if style is not None:
-            for head, (members, cells) in find_lists(ts, quads).items():
-                if any(o == ["b", head] for _, _, o in ts) and not any(m[0] == "b" for m in members) and _st(style).random() < 0.8:
+            for head, (members, cells) in sorted(find_lists(ts, quads).items(), key=lambda kv: any(m[0] == "b" for m in kv[1][0])):
+                if any(o == ["b", head] for _, _, o in ts) and not any(m[0] == "b" and m[1] not in lists for m in members) and _st(style).random() < 0.8:
                     lists[head] = members
                     gone = {c[1] for c in cells}
                     ts = [t for t in ts if not (t[0][0] == "b" and t[0][1] in gone)]
+
+        def lobj(m):
+            # (a member that is a list itself: a list object within the list, JSON-LD 1.1)
+            return {"@list": [lobj(x) for x in lists[m[1]]]} if m[0] == "b" and m[1] in lists else obj(m)
+
         for s, p, o in ts:
             n = by.setdefault(ident(s), {"@id": ident(s)})
             if p[1] == RDF + "type" and o[0] in ("u", "b"):
@@ -968,7 +974,7 @@ def write_jsonld(quads, style=None, ext_base=None):
             elif o == ["u", RDF + "nil"] and style is not None and _st(style).random() < 0.4:
                 n.setdefault(p[1], []).append({"@list": []})
             elif o[0] == "b" and o[1] in lists:
-                n.setdefault(p[1], []).append({"@list": [obj(m) for m in lists[o[1]]]})
+                n.setdefault(p[1], []).append({"@list": [lobj(m) for m in lists[o[1]]]})
             else:
                 n.setdefault(p[1], []).append(obj(o))
         return list(by.values())
@@ -1144,11 +1150,19 @@ def write_jsonld_compact(quads, style, ext_base=None):
                 order.append(s_)
             by_s[K(s_)].append((p_, o_))
         lists = {}
-        for head, (members, cells) in find_lists(ts, quads).items():
-            if any(o == ["b", head] for _, _, o in ts) and not any(m[0] == "b" for m in members) and st.random() < 0.8:
+        for head, (members, cells) in sorted(find_lists(ts, quads).items(), key=lambda kv: any(m[0] == "b" for m in kv[1][0])):
+            if any(o == ["b", head] for _, _, o in ts) and not any(m[0] == "b" and m[1] not in lists for m in members) and st.random() < 0.8:
                 lists[head] = members
                 for c in cells:
                     by_s.pop(K(c), None)
+
+        def lvalue(m, bare):
+            # (a member that is a list itself: a list object - or, under a term with @container @list, just an array)
+            if m[0] == "b" and m[1] in lists:
+                inner = [lvalue(x, bare) for x in lists[m[1]]]
+                return inner if bare else {A("@list"): inner}
+            return value(m)
+
         order = [s_ for s_ in order if K(s_) in by_s]
         # reverse properties: the statement is written in the node of its object
         reverse = {}
@@ -1191,7 +1205,7 @@ def write_jsonld_compact(quads, style, ext_base=None):
                 else:
                     name, kind, arg = (compact(p_[1], True), "plain", None)
                 if is_list:
-                    arr = [value(m) for m in members]
+                    arr = [lvalue(m, kind == "list" and st.random() < 0.6) for m in members]
                     v = arr if kind == "list" else {A("@list"): arr}
                 else:
                     v = value(o_, kind, arg, embed)
